@@ -70,13 +70,18 @@ type knownFinding struct {
 }
 
 // MaxReported bounds the number of distinct violations written out per run.
-const MaxReported = 25
+var MaxReported = 25
 
 func New(prop, tier, level string) *Run {
 	r := &Run{Prop: prop, Tier: tier, Level: level, start: time.Now(), exhaustive: true,
 		extra: map[string]any{}, knownHit: map[int]int{}, counters: map[string]*atomic.Int64{}, outcomes: map[string]int64{}}
 	if s := os.Getenv("VERIF_SEED"); s != "" {
 		r.Seed, _ = strconv.ParseInt(s, 10, 64)
+	}
+	if s := os.Getenv("VERIF_MAXREPORT"); s != "" {
+		if n, err := strconv.Atoi(s); err == nil && n > 0 {
+			MaxReported = n
+		}
 	}
 	r.loadKnown()
 	return r
